@@ -31,6 +31,38 @@ def derivations(cfgs, cov=None, timeout=7200, par=3):
     return out
 
 
+def derivation_batches(cfgs, cov=None, timeout=14400, batch=20000):
+    """The same derivations as derivations(), one configuration after the other and in batches, for the thorough tier:
+    nothing but the current batch is kept in memory."""
+    for c in cfgs:
+        stats = {}
+        n = 0
+        for recs in vlib.tlc_stream("Grammar.tla", "MC_G_%s.cfg" % c, stats, workers=max(4, vlib.NCPU // 2), timeout=timeout, batch=batch):
+            ds = []
+            for d in recs:
+                if d.get("R") == "g":
+                    d["cfg"] = c
+                    ds.append(d)
+            n += len(ds)
+            if ds:
+                yield ds
+        if cov is not None:
+            cov["states"] += stats.get("states", 0)
+            cov["transitions"] += stats.get("transitions", 0)
+            cov["tlc_runs"].append({"cfg": "MC_G_%s.cfg" % c, "states": stats.get("states", 0), "derivations": n, "wall_s": round(stats.get("wall_s", 0), 1)})
+        if n == 0:
+            raise vlib.ToolError("no derivation from " + c)
+
+
+def batches(cfgs, tier, cov):
+    """quick: one batch with everything (TLC runs in parallel); thorough: streamed batches"""
+    if tier == "quick":
+        yield derivations(cfgs, cov)
+    else:
+        for ds in derivation_batches(cfgs, cov):
+            yield ds
+
+
 def parse_cases(texts, render=False, analyze=False, tree=True):
     cases = [{"id": i, "text": t, "render": render, "analyze": analyze, "tree": tree} for i, t in enumerate(texts)]
     return vlib.harness("parse", cases, per_case_timeout=30)
